@@ -412,6 +412,9 @@ class View(object):
     def attr(self, obj, name):
         return self._it.getattr(obj, name)
 
+    def set(self, name, value):
+        self._env.assign(name, value)
+
 
 class Interp(object):
     MAX_DEPTH = 40
